@@ -297,6 +297,10 @@ struct Extractor {
       O << ",\"fq\":" << S.get(fullName(F));
     } else if (auto *EC = dyn_cast<EnumConstantDecl>(D)) {
       O << ",\"v\":" << EC->getInitVal().getExtValue();
+      // the class an enumerator is nested in (e.g. get_state_id<stt, State>::value)
+      if (auto *ED = dyn_cast<EnumDecl>(EC->getDeclContext()))
+        if (auto *RD = dyn_cast<CXXRecordDecl>(ED->getDeclContext()))
+          if (!RD->isDependentType()) O << ",\"ect\":" << ty(C.getRecordType(RD));
     } else if (auto *V = dyn_cast<VarDecl>(D)) {
       if (!V->isLocalVarDecl() && !isa<ParmVarDecl>(V)) { O << ",\"q\":"; jstr(O, plainQual(V)); }
       if (auto *VS = dyn_cast<VarTemplateSpecializationDecl>(V)) { O << ",\"ta\":"; targList(O, VS->getTemplateArgs().asArray()); }
@@ -479,6 +483,9 @@ struct Extractor {
     } else if (auto *E = dyn_cast<CXXPseudoDestructorExpr>(St)) {
       unsigned e = K(E->getBase());
       O << ",\"k\":\"pdtor\",\"e\":" << e;
+    } else if (auto *E = dyn_cast<CXXTypeidExpr>(St)) {
+      O << ",\"k\":\"typeid\"";
+      if (E->isTypeOperand() && !E->getTypeOperandSourceInfo()->getType()->isDependentType()) O << ",\"ty\":" << ty(E->getTypeOperandSourceInfo()->getType());
     } else if (auto *E = dyn_cast<CXXDefaultArgExpr>(St)) {
       O << ",\"k\":\"defarg\"";
       (void)E;
